@@ -89,6 +89,12 @@ func perturbEdited(r *gen.RNG, p gen.Profile, a any, h ref.Hunk) (any, string, b
 			return v
 		}
 		other := func(x any) any {
+			if r.Chance(0.4) {
+				// a near twin: the same string with a final line break, the neighbouring float64, ...
+				if y := changeNode(r, p, ref.Clone(x)); !ref.Eq(x, y, ref.List) {
+					return y
+				}
+			}
 			for t := 0; t < 8; t++ {
 				if y := gen.Scalar(r, p); !ref.Eq(x, y, ref.List) {
 					return y
